@@ -217,3 +217,32 @@ Proof.
     destruct obs as [|x obs]; [cbn [length] in L |- *; apply length_zero_iff_nil in L; rewrite L; reflexivity|].
     destruct (predict_avg (length (x :: obs)) (row :: pt)) as [|p ps]; [discriminate|]. reflexivity.
 Qed.
+
+(* ---------- ModelEvaluation.mean_predictions ---------- *)
+Theorem src_ev_mean_predictions_is_model : forall m P o ch nm e,
+  mk_eval m P o ch nm = Ok e -> src_ev_mean_predictions e = ev_mean_predictions e.
+Proof.
+  intros m P o ch nm e Built. apply mk_eval_ok in Built as (-> & HPo & _ & Hrect & Hch).
+  unfold src_ev_mean_predictions, src_ev_predictions, ev_mean_predictions, n_exp, n_thetas.
+  cbn [res_bind ev_preds ev_chains]. rewrite evm_bind_ok_r, Hch.
+  destruct P as [|row P']; [reflexivity|]. cbn [length Nat.eqb negb andb].
+  destruct m as [|m'].
+  - inversion Hrect as [|? ? Hr _]; subst. destruct row; [reflexivity | discriminate].
+  - cbn [Nat.eqb]. apply mean_rows_ok. eapply Forall_impl; [|exact Hrect]. cbn. intros a Ha ->. discriminate.
+Qed.
+
+(* ---------- ModelEvaluation.__init__ ---------- *)
+(* whatever the fresh instance held, the four shape checks and then the four stored arrays: the model's constructor, so
+   the hypothesis [mk_eval ... = Ok e] of the links above says "e is what the translated constructor returns" *)
+Theorem src_ev_init_is_model : forall (self : evaluation) (ncols : nat) P o ch nm,
+  src_ev_init self ncols P o ch nm = mk_eval ncols P o ch nm.
+Proof.
+  intros self ncols P o ch nm. unfold src_ev_init, mk_eval, ndim_of. cbn [negb].
+  assert (E : forall a b : nat, (Z.of_nat a =? Z.of_nat b) = Nat.eqb a b).
+  { intros a b. destruct (Nat.eqb_spec a b) as [->|H]; [apply Z.eqb_refl | apply Z.eqb_neq; lia]. }
+  rewrite !E.
+  destruct (Nat.eqb (length P) (length o)); cbn [negb]; [|reflexivity].
+  destruct (Nat.eqb (length nm) (length o)); cbn [negb]; [|reflexivity].
+  destruct (forallb _ P); cbn [negb Z.eqb Pos.eqb]; [|reflexivity].
+  destruct (Nat.eqb (length ch) ncols); cbn [negb]; reflexivity.
+Qed.
